@@ -180,7 +180,8 @@ def exhaustive_bodies(theory, sig, api, pre_n, max_ops, max_asserts, max_stop, m
                 steps.append({"op": "close_until", "stop": o["stop"]})
         if steps[-1]["op"] != "close":
             steps.append({"op": "close"})
-        out.append(steps)
+        if valid_model_history(sig, steps):
+            out.append(steps)
     return out, r
 
 
@@ -301,3 +302,32 @@ def random_history_model(sig, api, rnd, length, p_close=0.12, p_until=0.10):
         elif r < p_close * 2 + p_until * 2:
             body.append({"op": "close_until", "stop": rnd.randint(0, 3)})
     return pre + body + [{"op": "close"}]
+
+
+def valid_model_history(sig, steps):
+    """the quantifier of C17 (and of every model check on theories with a model declaration): functional,
+    acyclic morphism graphs; objects and morphisms are never equated by the caller"""
+    if not sig.models:
+        return True
+    model = list(sig.models)[0]
+    mor = model + "Mor"
+    pre = eql.snake(model) + "_mor_"
+    dom, cod = {}, {}
+    for st in steps:
+        if st["op"] == "equate" and st["ty"] in (model, mor):
+            return False
+        if st["op"] == "insert":
+            cols = sig.rels[st["rel"]]["cols"]
+            if st["rel"] in (pre + "dom", pre + "cod"):
+                tab = dom if st["rel"] == pre + "dom" else cod
+                m, o = st["args"]
+                if tab.get(m, o) != o:
+                    return False
+                tab[m] = o
+                if not _acyclic([(dom[x], cod[x]) for x in dom if x in cod]):
+                    return False
+            elif sig.rels[st["rel"]]["func"] and cols[-1] in (model, mor):
+                return False
+        if st["op"] == "define" and st["rel"] in (pre + "dom", pre + "cod"):
+            return False
+    return True
